@@ -1206,6 +1206,42 @@ theorem C10_reachable_repair_roundtrip (env : Env) (cs : List Forest.XCall) (hw 
   subst hstep
   exact ⟨a1, hi', r', Reach.handle_of_pathOf_nil a4, a5, a3, a6, a2, hrep', hwr, s, p, k1, k2, k3, k4, k6, k7⟩
 
+/-! Non-vacuity, closed: the history `new_document`, `new_element(e)` with `e` in the namespace `urn:a`,
+    `append` — no prefix is declared for `urn:a`, the document is in the value-level domain and NOT
+    writable.  Every hypothesis holds by evaluation; after the step `create_missing_prefixes(doc)` the
+    tables have the new prefix `n0` and the document serialises to `<n0:e xmlns:n0="urn:a"/>`. -/
+
+def c10ReachEnv : Env :=
+  { namespaces := [[], xmlNamespaceUri, ['u','r','n',':','a']], prefixes := [[], ['x','m','l']],
+    names := [(['s','p','a','c','e'], 1), (['i','d'], 1), (['e'], 2)] }
+def c10ReachCalls : List Forest.XCall := [.newNode .document, .newNode (.element 2), .call (.append 0 1)]
+def c10ReachRoot : HTree := .node 0 .document [.node 1 (.element 2) []]
+
+example : (∀ c ∈ c10ReachCalls, c.wellKinded) ∧
+    ((⟨Forest.init, c10ReachEnv⟩ : Store).xrun c10ReachCalls).forest.everOff = false ∧
+    ((⟨Forest.init, c10ReachEnv⟩ : Store).xrun c10ReachCalls).forest.roots = [c10ReachRoot] ∧
+    c10ReachRoot.value.isDocument = true ∧ envOK c10ReachEnv = true ∧
+    c10ReachRoot.erase.allNodes (fun v _ => valueOK c10ReachEnv v) = true ∧
+    (xmlIdValues c10ReachEnv c10ReachRoot.erase).Nodup ∧ singleRoot c10ReachRoot.erase = true ∧
+    nameTableOK c10ReachEnv = true ∧ namesWritable c10ReachEnv c10ReachRoot.erase [] = some false := by
+  decide +kernel
+
+example :
+    let S' := (⟨Forest.init, c10ReachEnv⟩ : Store).xrun (c10ReachCalls ++ [.createMissingPrefixes 0])
+    S'.env.prefixes = [[], ['x','m','l'], ['n','0']] ∧
+    S'.forest.roots.map (fun r' => toXmlString S'.env r'.erase []) =
+      [.ok "<n0:e xmlns:n0=\"urn:a\"/>".toList] := by decide +kernel
+
+example : ∃ r' s p,
+    let S' := (⟨Forest.init, c10ReachEnv⟩ : Store).xrun (c10ReachCalls ++ [.createMissingPrefixes 0])
+    S'.forest.rootOf? 0 = some r' ∧ toXmlString S'.env r'.erase [] = .ok s ∧
+      parseString .document S'.env s = .ok p ∧ p.tree = r'.erase ∧ deepEqual p.tree c10ReachRoot.erase = true := by
+  obtain ⟨_, _, r', _, _, h3, _, _, _, _, s, p, k1, k2, k3, _, k5, _⟩ :=
+    C10_reachable_repair_roundtrip c10ReachEnv c10ReachCalls (by decide) _ rfl (by decide +kernel)
+      c10ReachRoot (by decide +kernel) rfl (by decide +kernel) (by decide +kernel) (by decide +kernel)
+      (by decide +kernel) (by decide +kernel) _ rfl
+  exact ⟨r', s, p, h3, k1, k2, k3, k5⟩
+
 end EndToEnd
 
 end XotModel.Props
